@@ -658,6 +658,63 @@ func (r *Run) staleCellIndex(fns []*Func) {
 			})
 		}
 	}
+	// Q10 fitted before written: a function that fits the grid to what it is about to register (it calls an
+	// expander) does so before it writes any cell, itself or through a helper — a merge that runs first registers a
+	// footprint reaching past the bounds the grid has at that moment.
+	nFit := 0
+	for _, fn := range fns {
+		if fn.Obj == nil || direct(fn) || !r.writesCells(fn, 0, map[*Func]bool{}) {
+			continue
+		}
+		callsExp := false
+		ast.Inspect(fn.Body, func(n ast.Node) bool {
+			if call, ok := n.(*ast.CallExpr); ok {
+				if f, ok := calleeObjRaw(fn.Info(), call).(*types.Func); ok && expander[f] && f != fn.Obj {
+					callsExp = true
+				}
+			}
+			return true
+		})
+		if !callsExp {
+			continue
+		}
+		paths := r.capPaths(fn, r.Paths(fn), 20000)
+		for pi := range paths {
+			path := &paths[pi]
+			r.at(path)
+			fitted := false
+			for _, ev := range path.Events {
+				if ev.Fn == nil || ev.Fn.root().origOrSelf() != fn {
+					continue
+				}
+				switch ev.Kind {
+				case EvCall:
+					f, _ := ev.Callee.(*types.Func)
+					if f == nil {
+						continue
+					}
+					if expander[f] {
+						fitted = true
+						continue
+					}
+					if g := r.P.Funcs[f]; g != nil && f.Pkg() != nil && f.Pkg().Path() == pkgDagaz && !fitted && r.writesCells(g, 0, map[*Func]bool{}) {
+						nFit++
+						r.CheckT("Q10", fn.Name+":fitted-before-written["+f.Name()+"]", false, ev.Pos, path,
+							"%s writes grid cells through %s before the grid was fitted to the sample on this path (the expansion comes later or not at all): a footprint that reaches past the current bounds is registered out of range", fn.Name, f.Name())
+					}
+				case EvAssign:
+					for _, l := range ev.Lhs {
+						if gridCell(l) == 2 {
+							nFit++
+							r.CheckT("Q10", fn.Name+":fitted-before-written", fitted, ev.Pos, path,
+								"%s writes a grid cell before the grid was fitted to the sample on this path", fn.Name)
+						}
+					}
+				}
+			}
+		}
+	}
+	r.Floor("Q10", "cell writes in functions that fit the grid first", nFit, 1)
 	// functions whose result is computed from the origin
 	originFns := map[*types.Func]bool{}
 	for changed := true; changed; {
